@@ -548,19 +548,10 @@ func (vm *VM) nextCall() bool {
 			// A deferred call is returned. If there is another deferred
 			// call, it will be executed, otherwise the previous call will be
 			// finalized.
-			if i > 0 {
-				prev := vm.calls[i-1]
-				if prev.status == deferred {
-					vm.swapStack(&prev.fp, &call.fp, call.cl.fn.NumReg)
-					call, vm.calls[i-1] = prev, call
-					break
-				}
-			}
-			if regs := call.cl.fn.FinalRegs; regs != nil {
-				vm.fp = call.fp
-				vm.finalize(regs)
-			}
 			if call.status == recovered {
+				// The deferred call that recovered the panic is returned:
+				// the panic is no longer in progress, also for the deferred
+				// calls still to be executed.
 				numPanicked := 0
 				for _, c := range vm.calls {
 					if c.status == panicked {
@@ -575,6 +566,20 @@ func (vm *VM) nextCall() bool {
 					p = p.next
 					vm.panic = p
 				}
+				call.status = returned
+				vm.calls[i].status = returned
+			}
+			if i > 0 {
+				prev := vm.calls[i-1]
+				if prev.status == deferred {
+					vm.swapStack(&prev.fp, &call.fp, call.cl.fn.NumReg)
+					call, vm.calls[i-1] = prev, call
+					break
+				}
+			}
+			if regs := call.cl.fn.FinalRegs; regs != nil {
+				vm.fp = call.fp
+				vm.finalize(regs)
 			}
 			continue
 		case panicked:
